@@ -116,7 +116,7 @@ class Sim:
     """One world + one output directory. Used as a context manager."""
 
     def __init__(self, scn, schedule=(), lock_mode="classic", file_yields=False, faults=None, snapshots=False,
-                 observe_results=False, max_steps=60000):
+                 observe_results=False, max_steps=60000, observe_rows=False):
         self.scn = scn
         self.base = tempfile.mkdtemp(prefix="case_", dir=scratch_root())
         self.root = os.path.join(self.base, "w")
@@ -151,6 +151,7 @@ class Sim:
             "USER": "vuser",
             "JADE_REGISTRY": os.environ["JADE_REGISTRY"],
         }
+        self.w.observe_rows = observe_rows
         self.w.schedule = list(schedule)
         self.recovery_rounds = 0
         self.stuck = None
